@@ -295,6 +295,7 @@ structure DS where
   nb : Nat
   cap : Nat
   conns : List DConn
+  direct : Bool := true     -- the direct writer (no coalescing)
   cc : Nat                  -- current connection (1-based)
   calls : List DCall
   out : List String
@@ -472,6 +473,18 @@ def DS.step (ds : DS) (w : String) : DS :=
   | 'q' :: r => match (String.ofList r).toNat? with
       | some L => if gate ∧ held then ds.fail "bad-op" else ds.start 'q' L held park gate
       | none => ds.fail "bad-op"
+  | 'e' :: r =>
+      -- a context deadline passes while the peer has stopped reading in the middle of the request's frame: the direct
+      -- writer's Write is not bounded by the context, the whole frame goes out; the call returns the context error and
+      -- keeps its id (C01_own_no_reuse_while_late)
+      match (String.ofList r).splitOn ".", ds.conns[ds.cc - 1]? with
+      | [a, b], some cn => match a.toNat?, b.toNat? with
+        | some L, some nb =>
+          if ¬ plain ∨ ¬ ds.direct ∨ nb < 1 ∨ L > 1048576 ∨ cn.zed ∨ cn.cur.isSome ∨ ds.heldOn ds.cc ∨ ds.calls.length ≥ 40 then ds.fail "bad-op" else
+          let ds := ds.start 'q' L false false
+          ds.act ds.cc (.cancel ds.calls.length) "cancel"
+        | _, _ => ds.fail "bad-op"
+      | _, _ => ds.fail "bad-op"
   | 't' :: r =>
       match (String.ofList r).toNat?, ds.conns[ds.cc - 1]? with
       | some k, some cn => if ¬ plain ∨ k > 8 ∨ cn.zed ∨ cn.fault.isSome then ds.fail "bad-op"
@@ -608,12 +621,12 @@ def DS.outcome (ds : DS) (i : Nat) (c : DCall) : String :=
 
 def dsAnswer (proto wr : String) (steps : List String) : String :=
   match proto.toNat?, wr.toNat? with
-  | some p, some _ =>
+  | some p, some wrn =>
     if p < 2 ∨ p > 4 then "bad-op" else
     let cap := if p ≤ 2 then 128 else 32768
     let nb := cap / 64
     let cn : DConn := { st := MuxOwn.init cap, off := nb - 1 }
-    let ds0 : DS := { hl := if p ≤ 2 then 8 else 9, nb := nb, cap := cap, conns := [cn, cn], cc := 1, calls := [], out := [], bad := none }
+    let ds0 : DS := { hl := if p ≤ 2 then 8 else 9, nb := nb, cap := cap, conns := [cn, cn], direct := wrn == 0, cc := 1, calls := [], out := [], bad := none }
     let ds := steps.foldl DS.step ds0
     -- (a script must let the calls that keep closeWithError waiting get on)
     let ds := if ds.calls.any (fun c => (c.held || c.queued) && (ds.stOf c.conn).closed.isSome) then ds.fail "bad-op" else ds
